@@ -527,6 +527,8 @@ class Bits:
         if isinstance(s, io.BytesIO):
             if length is None:
                 length = s.seek(0, 2) * 8 - offset
+            if length < 0:
+                raise bitstring.CreationError("BytesIO object is not long enough for specified length and offset.")
             byteoffset, offset = divmod(offset, 8)
             bytelength = (length + byteoffset * 8 + offset + 7) // 8 - byteoffset
             if length + byteoffset * 8 + offset > s.seek(0, 2) * 8:
@@ -573,6 +575,8 @@ class Bits:
         if length is None:
             self._bitstore = BitStore(ba[offset:])
         else:
+            if length < 0:
+                raise bitstring.CreationError(f"Can't create bitstring with a negative length of {length}.")
             if offset + length > len(ba):
                 raise bitstring.CreationError(
                     f"Offset of {offset} and length of {length} too large for bitarray of length {len(ba)}.")
@@ -620,10 +624,14 @@ class Bits:
         data = bytearray(data)
         if offset is None:
             offset = 0
+        if offset > len(data) * 8:
+            raise bitstring.CreationError(f"Offset of {offset} too large for data of length {len(data) * 8} bits.")
         if length is None:
             # Use to the end of the data
             length = len(data) * 8 - offset
         else:
+            if length < 0:
+                raise bitstring.CreationError(f"Can't create bitstring with a negative length of {length}.")
             if length + offset > len(data) * 8:
                 raise bitstring.CreationError(f"Not enough data present. Need {length + offset} bits, have {len(data) * 8}.")
         self._bitstore = BitStore.frombytes(data).getslice_msb0(offset, offset + length)
